@@ -176,16 +176,22 @@ Definition spec_TSneParams (fm : fmt) (p : r_TSneValidParams) : gspec :=
 (** * FastICA  ("tolerance should be positive": R2;
       fast_ica.rs, `# Errors` of Fit::fit: "If the `alpha` value set for [`GFunc::Logcosh`] is not between 1 and 2
       inclusive"; error variant InvalidValue: "When any of the hyperparameters are set the wrong value").
-      Guard: `tol < 0` only; the alpha of Logcosh (an f64 whatever the data type) is tested inside the first
-      iteration of fit, after centring and whitening (finding F-C04-1: K_ICA). *)
+      Guard (since /repo 6e23381, the repair of finding F-C04-1): the alpha of Logcosh (an f64 whatever the data
+      type) must lie in [1, 2], then `tol < 0` is rejected.  Before the repair the guard looked at `tol` only and
+      alpha was tested inside the first iteration of fit: [check_ref_FastIcaParams_before_FC041] keeps that guard
+      for the refutation statement. *)
 Definition two64 : spec_float := S754_finite false 4503599627370496 (-51).
 Definition logcosh_ok (g : e_GFunc) : bool :=
   match g with GFunc_Logcosh a => fle one64 a && fle a two64 | _ => true end.
-Definition K_ICA : N := 4096.  (* FastICA: Logcosh alpha outside [1, 2] accepted *)
 Definition spec_FastIcaParams (fm : fmt) (p : r_FastIcaValidParams) : gspec :=
   let t := FastIcaValidParams_tol p in
   let a := logcosh_ok (FastIcaValidParams_gfunc p) in
-  {| g_strict := gt0 t && a; g_loose := ge0 t && a; g_act := ge0 t; g_known := if a then 0 else K_ICA |}.
+  {| g_strict := gt0 t && a; g_loose := ge0 t && a; g_act := ge0 t && a; g_known := 0 |}.
+(* the guard as it was before 6e23381 (finding F-C04-1, fixed) *)
+Definition check_ref_FastIcaParams_before_FC041 (fm : fmt) (p : r_FastIcaValidParams) : option gerr :=
+  if flt (FastIcaValidParams_tol p) fzero
+  then Some (GErr "FastIcaError::InvalidTolerance" [PFlt (cast_f32 fm (FastIcaValidParams_tol p))])
+  else None.
 
 (** * Diffusion map  ("Number of steps zero in diffusion map operator"; an embedding of size 0: R3) *)
 Definition spec_DiffusionMapParams (fm : fmt) (p : r_DiffusionMapValidParams) : gspec :=
